@@ -196,7 +196,7 @@ pub fn site(p: &str) -> String {
 }
 
 pub fn run(ctx: &Ctx) {
-    ctx.set_rule("byte strings of length 0..=32 from (1) a structured generator: DF 0..31, own length 85 %, CA/CF/TC/subtype/version uniform, valid parity 90 %, DF16/20/21 payloads from 16 register templates with min/max/random fields, byte mixtures {random, 00, FF, one-hot, extremes, bit runs}; (2) uniform random bytes; (3) the repository's 39 test frames with 1-3 random field edits; (4) one base frame per (DF, CA/CF, TC, subtype, version, template) shape with every byte position swept over all 256 values (thorough: every 16-bit window of the ME/MB field over all 65536 values), parity refreshed. Oracle under catch_unwind: no panic in try_from / from_bytes / Display / Debug / alternate forms; accepted => length is the 7 or 14 bytes the DF prescribes; decoding twice equal; from_bytes consumes exactly the frame. (5) families of related inputs (same Comm-B payload under other headers, a truncated / padded copy and the frame, the same field under another DF, other address, one bit apart) each evaluated in the given order, in reverse order and alone after an unrelated input on one thread: all evaluations of one input must be equal. Non-trivial = accepted frame or wrong-length input; distinct by hash of the bytes.");
+    ctx.set_rule("byte strings of length 0..=32 from (1) a structured generator: DF 0..31, own length 85 %, CA/CF/TC/subtype/version uniform, valid parity 90 %, DF16/20/21 payloads from 16 register templates with min/max/random fields, byte mixtures {random, 00, FF, one-hot, extremes, bit runs}; (2) uniform random bytes; (3) the repository's 39 test frames with 1-3 random field edits; (4) one base frame per (DF, CA/CF, TC, subtype, version, template) shape with every byte position swept over all 256 values (thorough: every 16-bit window of the ME/MB field over all 65536 values), parity refreshed. Oracle under catch_unwind: no panic in try_from / from_bytes / Display / Debug / alternate forms; accepted => length is the 7 or 14 bytes the DF prescribes; decoding twice equal; from_bytes consumes exactly the frame. (5) families of related inputs (same Comm-B payload under other headers, a truncated / padded copy and the frame, the same field under another DF, other address, one bit apart) each evaluated alone on a fresh thread (reference) and in the given and the reverse order on the worker thread: every evaluation must equal the reference; one frame per shape next to each of its 56 single-bit neighbours. Non-trivial = accepted frame or wrong-length input; distinct by hash of the bytes.");
     ctx.assume("termination is observed through the check's watchdog only (exit 2); the readers are loop-free over <= 14 bytes");
     let h = Hist::default();
     let suite = Suite::for_tier(ctx.tier);
